@@ -80,6 +80,7 @@ To ensure consistency between `Segment` instances, it is recommended to call thi
 See :class:`pyannote.core.Segment` for the complete reference.
 """
 
+import math
 import warnings
 from typing import Union, Optional, Tuple, List, Iterator, Iterable
 
@@ -171,8 +172,8 @@ class Segment:
     def __post_init__(self):
         """Round start and end up to SEGMENT_PRECISION precision (when required)"""
         if AUTO_ROUND_TIME:
-            object.__setattr__(self, 'start', int(self.start / SEGMENT_PRECISION + 0.5) * SEGMENT_PRECISION)
-            object.__setattr__(self, 'end', int(self.end / SEGMENT_PRECISION + 0.5) * SEGMENT_PRECISION)
+            object.__setattr__(self, 'start', math.floor(self.start / SEGMENT_PRECISION + 0.5) * SEGMENT_PRECISION)
+            object.__setattr__(self, 'end', math.floor(self.end / SEGMENT_PRECISION + 0.5) * SEGMENT_PRECISION)
 
     @property
     def duration(self) -> float:
